@@ -101,6 +101,23 @@ CLAIMED = {
              "none supplied), and the Arrhenius lemma f'(x,T) = f(x,Tc) exp(-Ea/R (1/T-1/Tc)) by exponent identity.",
         note=TB + "hypothesis alpha>0 for fitted functions; find_best_fit / measurements / __call__ / activation energy by contract; repaired by fix commit 56213d2 (molar initial feed)",
         technique="contracts + loop recurrence + heap aliasing followed by the executor; ring normal form with exp-product normalisation / z3"),
+    'C19': dict(
+        level='proof', ref='DESIGN.md 3/C19',
+        text="Exceptional postconditions by path enumeration over the real bodies with otherwise arbitrary symbolic arguments: with both a permeate temperature and a "
+             "permeate pressure no path of the flux law, the solver (from the loop head: iterate or exit - both raise; also with precision > 1), both helpers, the ideal and "
+             "non-ideal curves (2 and n points), all four process models (with/without programme), the pure-component flux and curve construction from fluxes returns normally; "
+             "likewise Mixture without parameters, NRTL/UNIQUAC without parameters or component constants (both bases, both thermodynamic functions), a curve with neither "
+             "fluxes nor permeances, and a single experiment without activation energy. Sanity obligations show valid specifications are not rejected.",
+        note=TB + "callers see callee rejections through the callee contracts (raises clauses proved on the callee bodies here); N>=1, at least one composition",
+        technique="exceptional postconditions (raises clauses) checked by solver-pruned path enumeration of the real bodies"),
+    'C08': dict(
+        level='proof', ref='DESIGN.md 3/C08',
+        text="calculate_permeate_composition, calculate_separation_factor, every point of ideal_diffusion_curve and every step of all four process models are proved to use the "
+             "same uninterpreted solver application cpf(T, x, precision, permeate condition, permeances, model, mixture) built from the *reported* state, with the selected model "
+             "bound exactly as Python binds the call (this is what exposed the positional-argument slip); permeate composition = J1/(J1+J2), separation factors in one basis, "
+             "curve/process metrics by definition element-wise; default-permeance lemma by lock-step over the solver loop.",
+        note=TB + "calculate_partial_fluxes by contract (pure function of its argument leaves); repaired by fix commits 218ae59, bbb5fa0",
+        technique="contracts naming the callee result by an uninterpreted application + congruence; path enumeration; lock-step relational proof"),
 }
 
 NOT_YET = "check under construction (see DESIGN.md section 7); not claimed until every obligation is in place"
